@@ -48,7 +48,7 @@ def _progs(tier: str) -> List[Dict[str, Any]]:
 
     singles = ["rotate_half", "stack_mean", "masked", "index_rows", "reshape", "view_t", "neg", "sdpa:mask_kw", "sdpa:mask_pos",
                "linear:F_bias_kw", "layer_norm:F_affine", "conv1d:F", "with_zeros", "gate_softmax", "add_param", "mul_scalar", "cmp_two", "cat_kw", "gather_argmax", "softmax:F",
-               "mul_1p3", "div_1p3", "mul_1p35"]
+               "mul_1p3", "div_1p3", "mul_1p35", "add_view_both", "and_mask_both"]
     for n, k in enumerate(singles):
         add([["op", k]], "x", ["sum", "two_outputs", "tensor"][n % 3])
         add([["op", "linear:nn"], ["op", k], ["op", "neg"]], ["x", "emb_pos", "emb"][n % 3], "two_outputs" if n % 2 else "mse")
